@@ -810,3 +810,56 @@ theorem readMeta_header (R : Render) (m : Meta) (h : MetaOk R m) :
   rfl
 
 end Reamber.Osu
+
+namespace Reamber.Osu
+
+/-! ### no header line is `[TimingPoints]` or `[HitObjects]`, none contains a line break -/
+
+/-- the first two characters of the 50 fixed header lines do not depend on the chart -/
+theorem hdrS_take2 (R : Render) (m : Meta) :
+    (hdrS R m).map (List.take 2) = (hdrS intRender {}).map (List.take 2) := by
+  unfold hdrS kvLine bgLine
+  rfl
+
+theorem hdrS_not_header (R : Render) (m : Meta) : hTiming ∉ hdrS R m ∧ hObjects ∉ hdrS R m := by
+  have key : ∀ x ∈ (hdrS intRender {}).map (List.take 2), x ≠ hTiming.take 2 ∧ x ≠ hObjects.take 2 := by
+    decide +kernel
+  constructor
+  · intro h
+    have := List.mem_map_of_mem (f := List.take 2) h
+    rw [hdrS_take2] at this
+    exact (key _ this).1 rfl
+  · intro h
+    have := List.mem_map_of_mem (f := List.take 2) h
+    rw [hdrS_take2] at this
+    exact (key _ this).2 rfl
+
+theorem sample_line_not_header (R : Render) (s : Sample) :
+    R.line (writeSample s) ≠ hTiming ∧ R.line (writeSample s) ≠ hObjects := by
+  have hl : R.line (writeSample s) = 'S' :: ("ample,".toList ++ showInt (pyTrunc s.offset) ++ ",0,".toList ++ s.file ++
+      (',' :: showInt s.volume)) := by
+    simp [Render.line, writeSample, Render.tok, L, comma]
+  rw [hl]
+  constructor
+  · intro h
+    have : some 'S' = hTiming.head? := congrArg List.head? h
+    revert this; decide +kernel
+  · intro h
+    have : some 'S' = hObjects.head? := congrArg List.head? h
+    revert this; decide +kernel
+
+theorem line_no_nl (R : Render) (l : TLine) (h : ∀ t ∈ l, '\n' ∉ R.tok t) : '\n' ∉ R.line l := by
+  unfold Render.line
+  intro hm
+  rw [List.mem_flatten] at hm
+  obtain ⟨s, hs, hc⟩ := hm
+  rw [List.mem_map] at hs
+  obtain ⟨t, ht, rfl⟩ := hs
+  exact h t ht hc
+
+end Reamber.Osu
+
+namespace Reamber.Osu
+instance (R : Render) (q : Rat) : Decidable (NumOk R q) := by unfold NumOk; infer_instance
+instance (R : Render) (m : Meta) : Decidable (MetaOk R m) := by unfold MetaOk; infer_instance
+end Reamber.Osu
